@@ -15,8 +15,13 @@ structure View where
   core : LexCore
   runes : List Char
   exprs : List Sexp
+  fin : Bool          -- once `runes` are used up the end of the input has been signalled (`EndInput`)
 
-def view (s : PState) : View := ⟨s.lex.toLexCore, s.runes, s.exprs⟩
+/-- whether `EndInput` will have been called when the runes of the state are used up: the
+lexer's mark when every piece has been delivered, otherwise what the last piece brings -/
+def PState.willFinish (s : PState) : Bool := if s.fut.isEmpty then s.lex.finished else s.eof
+
+def view (s : PState) : View := ⟨s.lex.toLexCore, s.runes, s.exprs, s.willFinish⟩
 
 inductive PeekOutA where
   | tok (t : Token) (v : View)
@@ -25,58 +30,63 @@ inductive PeekOutA where
 def headIf (extra : Nat) (c : LexCore) : Option Token :=
   if extra < c.tokens.length then c.tokens.head? else none
 
-/-- `ParserPeekNextToken` on a view: lex runes until enough tokens are queued. -/
-def peekWaitA (extra : Nat) (ex : List Sexp) : List Char → LexCore → PeekOutA
+/-- `ParserPeekNextToken` (`orEnd`: `peekAfterSign`) on a view: lex runes until enough tokens
+are queued. -/
+def peekWaitA (orEnd : Bool) (extra : Nat) (ex : List Sexp) (fin : Bool) : List Char → LexCore → PeekOutA
   | [], c =>
     match headIf extra c with
-    | some t => .tok t ⟨c, [], ex⟩
-    | none => .stop .more ⟨c, [], ex⟩
+    | some t => .tok t ⟨c, [], ex, fin⟩
+    | none => if orEnd && fin then .tok Token.endTk ⟨c, [], ex, fin⟩ else .stop .more ⟨c, [], ex, fin⟩
   | r :: rs, c =>
     match headIf extra c with
-    | some t => .tok t ⟨c, r :: rs, ex⟩
+    | some t => .tok t ⟨c, r :: rs, ex, fin⟩
     | none =>
       match step c r with
-      | .ok c' => peekWaitA extra ex rs c'
-      | .err _ c' => .stop .err ⟨c', rs, ex⟩
+      | .ok c' => peekWaitA orEnd extra ex fin rs c'
+      | .err _ c' => .stop .err ⟨c', rs, ex, fin⟩
 
 inductive TopOutA where
   | tok (t : Token) (v : View)
   | finished (st : Status) (v : View)
 
-def topGetA (ex : List Sexp) : List Char → LexCore → TopOutA
+def topGetA (ex : List Sexp) (fin : Bool) : List Char → LexCore → TopOutA
   | [], c =>
     match c.tokens with
-    | t :: ts => .tok t ⟨{ c with tokens := ts }, [], ex⟩
-    | [] => .finished (if inLiteral c then .more else .done) ⟨c, [], ex⟩
+    | t :: ts => .tok t ⟨{ c with tokens := ts }, [], ex, fin⟩
+    | [] => .finished (if inLiteral c then .more else .done) ⟨c, [], ex, fin⟩
   | r :: rs, c =>
     match c.tokens with
-    | t :: ts => .tok t ⟨{ c with tokens := ts }, r :: rs, ex⟩
+    | t :: ts => .tok t ⟨{ c with tokens := ts }, r :: rs, ex, fin⟩
     | [] =>
       match step c r with
-      | .ok c' => topGetA ex rs c'
-      | .err _ c' => .finished .err ⟨c', rs, ex⟩
+      | .ok c' => topGetA ex fin rs c'
+      | .err _ c' => .finished .err ⟨c', rs, ex, fin⟩
 
 def runA {α : Type} : Prog α → View → Fin α × View
   | .pure a, v => (.ret a, v)
   | .fail, v => (.stop .err, v)
   | .waitPeek n k, v =>
-    (match peekWaitA n v.exprs v.runes v.core with
+    (match peekWaitA false n v.exprs v.fin v.runes v.core with
+     | .tok t v' => runA (k t) v'
+     | .stop st v' => (.stop st, v'))
+  | .signPeek k, v =>
+    (match peekWaitA true 0 v.exprs v.fin v.runes v.core with
      | .tok t v' => runA (k t) v'
      | .stop st v' => (.stop st, v'))
   | .topGet k, v =>
-    (match topGetA v.exprs v.runes v.core with
+    (match topGetA v.exprs v.fin v.runes v.core with
      | .tok t v' => runA (k (some t)) v'
      | .finished .done v' => runA (k none) v'
      | .finished st v' => (.stop st, v'))
   | .peekAt i k, v =>
-    (match peekWaitA i v.exprs v.runes v.core with
+    (match peekWaitA false i v.exprs v.fin v.runes v.core with
      | .tok _ v' =>
        (match v'.core.tokens[i]? with
         | some t => runA (k t) v'
         | none => (.stop .err, v'))
      | .stop st v' => (.stop st, v'))
   | .getTok k, v =>
-    (match peekWaitA 0 v.exprs v.runes v.core with
+    (match peekWaitA false 0 v.exprs v.fin v.runes v.core with
      | .tok t v' => runA (k t) { v' with core := { v'.core with tokens := v'.core.tokens.tail } }
      | .stop st v' => (.stop st, v'))
   | .pushTok t k, v => runA k { v with core := { v.core with tokens := t :: v.core.tokens } }
@@ -90,7 +100,7 @@ def Inv (s : PState) : Prop := s.lex.stream.isSome = true
 theorem readRune_some (l : LexState) (fuel : Nat) (c : Char) (l' : LexState)
     (h : readRune l fuel = some (c, l')) :
     l.pending = c :: l'.pending ∧ l'.toLexCore = l.toLexCore ∧ l'.stream.isSome = true ∧
-      l'.next.length ≤ l.next.length := by
+      l'.next.length ≤ l.next.length ∧ l'.finished = l.finished := by
   induction fuel generalizing l with
   | zero => simp [readRune] at h
   | succ n ih =>
@@ -112,7 +122,7 @@ theorem readRune_some (l : LexState) (fuel : Nat) (c : Char) (l' : LexState)
         | cons n0 rest =>
           simp only [hn, Option.some.injEq] at hp
           subst hp
-          obtain ⟨h1, h2, h3, h4⟩ := this
+          obtain ⟨h1, h2, h3, h4, h5⟩ := this
           have hstream : l.stream.getD [] = [] := by
             cases hst : l.stream with
             | none => rfl
@@ -120,13 +130,14 @@ theorem readRune_some (l : LexState) (fuel : Nat) (c : Char) (l' : LexState)
               cases st with
               | nil => rfl
               | cons a b => exact absurd hst (hns a b)
-          refine ⟨?_, ?_, h3, ?_⟩
+          refine ⟨?_, ?_, h3, ?_, ?_⟩
           · simp only [LexState.pending, hstream, hn, List.flatten_cons, List.nil_append]
             simpa [LexState.pending] using h1
           · simpa using h2
           · simp only [List.length_cons]
             simp at h4
             omega
+          · simpa using h5
 
 theorem readRune_none (l : LexState) (fuel : Nat) (hf : l.next.length < fuel)
     (h : readRune l fuel = none) : l.pending = [] := by
@@ -155,8 +166,8 @@ theorem readRune_none (l : LexState) (fuel : Nat) (hf : l.next.length < fuel)
         simpa [LexState.pending] using this
 
 theorem step_fields (l : LexState) (c : Char) :
-    (∀ l', l.step c = .ok l' → Lexer.step l.toLexCore c = .ok l'.toLexCore ∧ l'.stream = l.stream ∧ l'.next = l.next) ∧
-    (∀ e l', l.step c = .err e l' → Lexer.step l.toLexCore c = .err e l'.toLexCore ∧ l'.stream = l.stream ∧ l'.next = l.next) := by
+    (∀ l', l.step c = .ok l' → Lexer.step l.toLexCore c = .ok l'.toLexCore ∧ l'.stream = l.stream ∧ l'.next = l.next ∧ l'.finished = l.finished) ∧
+    (∀ e l', l.step c = .err e l' → Lexer.step l.toLexCore c = .err e l'.toLexCore ∧ l'.stream = l.stream ∧ l'.next = l.next ∧ l'.finished = l.finished) := by
   unfold LexState.step
   cases h : Lexer.step l.toLexCore c with
   | ok c' => simp
@@ -181,6 +192,18 @@ theorem addNextStream_drained (l : LexState) (p : List Char) (hs : l.stream.isSo
       simp only [List.flatten_cons, List.append_eq_nil_iff] at hnf
       simp [LexState.addNextStream, LexState.promote, hst, hn, LexState.pending, hnf.1, hnf.2]
 
+/-- the caller delivers the next piece to a lexer that has read everything -/
+theorem deliver_drained (s : PState) (p : List Char) (fut : List (List Char)) (st : Status)
+    (hi : s.lex.stream.isSome = true) (hp : s.lex.pending = []) (hfut : s.fut = p :: fut) :
+    (s.deliver p fut st).lex.pending = p ∧ (s.deliver p fut st).lex.toLexCore = s.lex.toLexCore ∧
+      (s.deliver p fut st).lex.stream.isSome = true ∧ (s.deliver p fut st).lex.next.length = s.lex.next.length ∧
+      (s.deliver p fut st).willFinish = s.willFinish ∧ (s.deliver p fut st).fut = fut ∧
+      (s.deliver p fut st).exprs = s.exprs := by
+  obtain ⟨a1, a2, a3, a4⟩ := addNextStream_drained s.lex p hi hp
+  refine ⟨?_, a2, a3, a4, ?_, rfl, rfl⟩
+  · simpa [PState.deliver, LexState.pending] using a1
+  · cases fut <;> simp [PState.deliver, PState.willFinish, hfut]
+
 /-! ### the two reading loops -/
 
 def PeekOut.toA : PeekOut → PeekOutA
@@ -193,13 +216,17 @@ def PeekOut.inv : PeekOut → Prop
 
 theorem runes_of_pending (s : PState) : s.runes = s.lex.pending ++ s.fut.flatten := rfl
 
-theorem peekWaitA_headIf (extra : Nat) (ex : List Sexp) (rs : List Char) (c : LexCore) (t : Token)
-    (h : headIf extra c = some t) : peekWaitA extra ex rs c = .tok t ⟨c, rs, ex⟩ := by
+theorem peekWaitA_headIf (b : Bool) (extra : Nat) (ex : List Sexp) (fin : Bool) (rs : List Char) (c : LexCore) (t : Token)
+    (h : headIf extra c = some t) : peekWaitA b extra ex fin rs c = .tok t ⟨c, rs, ex, fin⟩ := by
   cases rs <;> simp [peekWaitA, h]
 
-theorem peekWait_sim (extra : Nat) (fuel : Nat) (s : PState) (hi : Inv s) (hf : s.size < fuel) :
-    (peekWaitRun extra fuel s).toA = peekWaitA extra s.exprs s.runes s.lex.toLexCore ∧
-      (peekWaitRun extra fuel s).inv := by
+theorem willFinish_lex (s : PState) (l' : LexState) (h : l'.finished = s.lex.finished) :
+    ({ s with lex := l' } : PState).willFinish = s.willFinish := by
+  simp [PState.willFinish, h]
+
+theorem peekWait_sim (b : Bool) (extra : Nat) (fuel : Nat) (s : PState) (hi : Inv s) (hf : s.size < fuel) :
+    (peekWaitRun b extra fuel s).toA = peekWaitA b extra s.exprs s.willFinish s.runes s.lex.toLexCore ∧
+      (peekWaitRun b extra fuel s).inv := by
   induction fuel generalizing s with
   | zero => omega
   | succ n ih =>
@@ -211,7 +238,7 @@ theorem peekWait_sim (extra : Nat) (fuel : Nat) (s : PState) (hi : Inv s) (hf : 
     cases hh : (if extra < s.lex.tokens.length then s.lex.tokens.head? else none) with
     | some t =>
       have : headIf extra s.lex.toLexCore = some t := hh
-      rw [peekWaitA_headIf _ _ _ _ _ this]
+      rw [peekWaitA_headIf _ _ _ _ _ _ _ this]
       exact ⟨rfl, hi⟩
     | none =>
       simp only
@@ -219,7 +246,7 @@ theorem peekWait_sim (extra : Nat) (fuel : Nat) (s : PState) (hi : Inv s) (hf : 
       cases hr : readRune s.lex (s.lex.next.length + 1) with
       | some cl =>
         obtain ⟨c, l⟩ := cl
-        obtain ⟨hp, hc, hs, hn⟩ := readRune_some _ _ _ _ hr
+        obtain ⟨hp, hc, hs, hn, hfin⟩ := readRune_some _ _ _ _ hr
         have hrunes : s.runes = c :: (l.pending ++ s.fut.flatten) := by
           rw [runes_of_pending, hp]; rfl
         simp only
@@ -228,7 +255,7 @@ theorem peekWait_sim (extra : Nat) (fuel : Nat) (s : PState) (hi : Inv s) (hf : 
         obtain ⟨hok, herr⟩ := step_fields l c
         cases hst : l.step c with
         | ok l' =>
-          obtain ⟨h1, h2, h3⟩ := hok l' hst
+          obtain ⟨h1, h2, h3, h4⟩ := hok l' hst
           rw [hc] at h1
           simp only [h1]
           have hsz : ({ s with lex := l' } : PState).size < n := by
@@ -242,39 +269,45 @@ theorem peekWait_sim (extra : Nat) (fuel : Nat) (s : PState) (hi : Inv s) (hf : 
           have hinv : Inv ({ s with lex := l' } : PState) := by
             simp [Inv, h2, hs]
           have := ih { s with lex := l' } hinv hsz
+          rw [willFinish_lex s l' (h4.trans hfin)] at this
           simpa [runes_of_pending, LexState.pending, h2, h3] using this
         | err e l' =>
-          obtain ⟨h1, h2, h3⟩ := herr e l' hst
+          obtain ⟨h1, h2, h3, h4⟩ := herr e l' hst
           rw [hc] at h1
           simp only [h1]
           refine ⟨?_, trivial⟩
-          simp [PeekOut.toA, view, runes_of_pending, LexState.pending, h2, h3]
+          simp [PeekOut.toA, view, runes_of_pending, LexState.pending, h2, h3, willFinish_lex s l' (h4.trans hfin)]
       | none =>
         have hp := readRune_none _ _ (Nat.lt_succ_self _) hr
         simp only
         cases hfut : s.fut with
         | nil =>
           have hrunes : s.runes = [] := by simp [runes_of_pending, hp, hfut]
-          rw [hrunes]
+          have hwf : s.willFinish = s.lex.finished := by simp [PState.willFinish, hfut]
+          rw [hrunes, hwf]
           simp only [peekWaitA, hhA]
-          refine ⟨?_, trivial⟩
-          simp [PeekOut.toA, view, hrunes]
+          cases hbf : (b && s.lex.finished) with
+          | true =>
+            simp only [↓reduceIte]
+            refine ⟨?_, hi⟩
+            simp [PeekOut.toA, view, hrunes, hwf]
+          | false =>
+            simp only [Bool.false_eq_true, ↓reduceIte]
+            refine ⟨?_, trivial⟩
+            simp [PeekOut.toA, view, hrunes, hwf]
         | cons p fut =>
           simp only
-          obtain ⟨a1, a2, a3, a4⟩ := addNextStream_drained s.lex p hi hp
+          obtain ⟨a1, a2, a3, a4, a5, a6, a7⟩ := deliver_drained s p fut .more hi hp hfut
           have hrunes : s.runes = p ++ fut.flatten := by simp [runes_of_pending, hp, hfut]
-          let s' : PState := { s with lex := s.lex.addNextStream p, fut := fut, trace := s.trace ++ [.more] }
-          have hsz : s'.size < n := by
+          have hsz : (s.deliver p fut .more).size < n := by
             have h0 : s.size = (p ++ fut.flatten).length + s.lex.next.length + (fut.length + 1) := by
               simp [PState.size, hrunes, hfut]
-            have h1 : s'.size = (p ++ fut.flatten).length + s.lex.next.length + fut.length := by
-              simp [s', PState.size, runes_of_pending, a1, a4]
+            have h1 : (s.deliver p fut .more).size = (p ++ fut.flatten).length + s.lex.next.length + fut.length := by
+              simp [PState.size, runes_of_pending, a1, a4, a6]
             omega
-          have hinv : Inv s' := a3
-          have := ih s' hinv hsz
-          have hr' : s'.runes = s.runes := by rw [hrunes]; simp [s', runes_of_pending, a1]
-          have hc' : s'.lex.toLexCore = s.lex.toLexCore := a2
-          rw [hr', hc'] at this
+          have := ih (s.deliver p fut .more) a3 hsz
+          have hr' : (s.deliver p fut .more).runes = s.runes := by rw [hrunes]; simp [runes_of_pending, a1, a6]
+          rw [hr', a2, a5, a7] at this
           exact this
 
 def TopOut.toA : TopOut → TopOutA
@@ -285,12 +318,12 @@ def TopOut.inv : TopOut → Prop
   | .tok _ s => Inv s
   | .finished _ s => Inv s
 
-theorem topGetA_tok (ex : List Sexp) (rs : List Char) (c : LexCore) (t : Token) (ts : List Token)
-    (h : c.tokens = t :: ts) : topGetA ex rs c = .tok t ⟨{ c with tokens := ts }, rs, ex⟩ := by
+theorem topGetA_tok (ex : List Sexp) (fin : Bool) (rs : List Char) (c : LexCore) (t : Token) (ts : List Token)
+    (h : c.tokens = t :: ts) : topGetA ex fin rs c = .tok t ⟨{ c with tokens := ts }, rs, ex, fin⟩ := by
   cases rs <;> simp [topGetA, h]
 
 theorem topGet_sim (fuel : Nat) (s : PState) (hi : Inv s) (hf : s.size < fuel) :
-    (topGetRun fuel s).toA = topGetA s.exprs s.runes s.lex.toLexCore ∧ (topGetRun fuel s).inv := by
+    (topGetRun fuel s).toA = topGetA s.exprs s.willFinish s.runes s.lex.toLexCore ∧ (topGetRun fuel s).inv := by
   induction fuel generalizing s with
   | zero => omega
   | succ n ih =>
@@ -301,16 +334,16 @@ theorem topGet_sim (fuel : Nat) (s : PState) (hi : Inv s) (hf : s.size < fuel) :
     simp only [hsome, Bool.false_and, Bool.false_eq_true, ↓reduceIte]
     cases htk : s.lex.tokens with
     | cons t ts =>
-      rw [topGetA_tok _ _ _ t ts htk]
+      rw [topGetA_tok _ _ _ _ t ts htk]
       refine ⟨?_, ?_⟩
-      · simp [TopOut.toA, view, runes_of_pending, LexState.pending]
+      · simp [TopOut.toA, view, runes_of_pending, LexState.pending, PState.willFinish]
       · simpa [TopOut.inv, Inv] using hi
     | nil =>
       simp only
       cases hr : readRune s.lex (s.lex.next.length + 1) with
       | some cl =>
         obtain ⟨c, l⟩ := cl
-        obtain ⟨hp, hc, hs, hn⟩ := readRune_some _ _ _ _ hr
+        obtain ⟨hp, hc, hs, hn, hfin⟩ := readRune_some _ _ _ _ hr
         have hrunes : s.runes = c :: (l.pending ++ s.fut.flatten) := by
           rw [runes_of_pending, hp]; rfl
         simp only
@@ -319,7 +352,7 @@ theorem topGet_sim (fuel : Nat) (s : PState) (hi : Inv s) (hf : s.size < fuel) :
         obtain ⟨hok, herr⟩ := step_fields l c
         cases hst : l.step c with
         | ok l' =>
-          obtain ⟨h1, h2, h3⟩ := hok l' hst
+          obtain ⟨h1, h2, h3, h4⟩ := hok l' hst
           rw [hc] at h1
           simp only [h1]
           have hsz : ({ s with lex := l' } : PState).size < n := by
@@ -333,13 +366,14 @@ theorem topGet_sim (fuel : Nat) (s : PState) (hi : Inv s) (hf : s.size < fuel) :
           have hinv : Inv ({ s with lex := l' } : PState) := by
             simp [Inv, h2, hs]
           have := ih { s with lex := l' } hinv hsz
+          rw [willFinish_lex s l' (h4.trans hfin)] at this
           simpa [runes_of_pending, LexState.pending, h2, h3] using this
         | err e l' =>
-          obtain ⟨h1, h2, h3⟩ := herr e l' hst
+          obtain ⟨h1, h2, h3, h4⟩ := herr e l' hst
           rw [hc] at h1
           simp only [h1]
           refine ⟨?_, ?_⟩
-          · simp [TopOut.toA, view, runes_of_pending, LexState.pending, h2, h3]
+          · simp [TopOut.toA, view, runes_of_pending, LexState.pending, h2, h3, willFinish_lex s l' (h4.trans hfin)]
           · simp [TopOut.inv, Inv, h2, hs]
       | none =>
         have hp := readRune_none _ _ (Nat.lt_succ_self _) hr
@@ -353,24 +387,25 @@ theorem topGet_sim (fuel : Nat) (s : PState) (hi : Inv s) (hf : s.size < fuel) :
           simp [TopOut.toA, view, hrunes]
         | cons p fut =>
           simp only
-          obtain ⟨a1, a2, a3, a4⟩ := addNextStream_drained s.lex p hi hp
-          have hrunes : s.runes = p ++ fut.flatten := by simp [runes_of_pending, hp, hfut]
           generalize hst : (if inLiteral s.lex.toLexCore = true then Status.more else Status.done) = st
-          let s' : PState := { s with lex := s.lex.addNextStream p, fut := fut, trace := s.trace ++ [st] }
-          have hsz : s'.size < n := by
+          obtain ⟨a1, a2, a3, a4, a5, a6, a7⟩ := deliver_drained s p fut st hi hp hfut
+          have hrunes : s.runes = p ++ fut.flatten := by simp [runes_of_pending, hp, hfut]
+          have hsz : (s.deliver p fut st).size < n := by
             have h0 : s.size = (p ++ fut.flatten).length + s.lex.next.length + (fut.length + 1) := by
               simp [PState.size, hrunes, hfut]
-            have h1 : s'.size = (p ++ fut.flatten).length + s.lex.next.length + fut.length := by
-              simp [s', PState.size, runes_of_pending, a1, a4]
+            have h1 : (s.deliver p fut st).size = (p ++ fut.flatten).length + s.lex.next.length + fut.length := by
+              simp [PState.size, runes_of_pending, a1, a4, a6]
             omega
-          have hinv : Inv s' := a3
-          have := ih s' hinv hsz
-          have hr' : s'.runes = s.runes := by rw [hrunes]; simp [s', runes_of_pending, a1]
-          have hc' : s'.lex.toLexCore = s.lex.toLexCore := a2
-          rw [hr', hc'] at this
+          have := ih (s.deliver p fut st) a3 hsz
+          have hr' : (s.deliver p fut st).runes = s.runes := by rw [hrunes]; simp [runes_of_pending, a1, a6]
+          rw [hr', a2, a5, a7] at this
           exact this
 
 /-! ### every program -/
+
+theorem view_fields (s : PState) :
+    (view s).exprs = s.exprs ∧ (view s).runes = s.runes ∧ (view s).core = s.lex.toLexCore ∧ (view s).fin = s.willFinish :=
+  ⟨rfl, rfl, rfl, rfl⟩
 
 theorem run_view {α : Type} (p : Prog α) (s : PState) (hi : Inv s) :
     (run p s).1 = (runA p (view s)).1 ∧ view (run p s).2 = (runA p (view s)).2 := by
@@ -378,11 +413,21 @@ theorem run_view {α : Type} (p : Prog α) (s : PState) (hi : Inv s) :
   | pure a => simp [run, runA]
   | fail => simp [run, runA]
   | waitPeek n k ih =>
-    have hsim := peekWait_sim n (s.size + 1) s hi (Nat.lt_succ_self _)
+    have hsim := peekWait_sim false n (s.size + 1) s hi (Nat.lt_succ_self _)
     simp only [run, runA]
-    have hv : (view s).exprs = s.exprs ∧ (view s).runes = s.runes ∧ (view s).core = s.lex.toLexCore := ⟨rfl, rfl, rfl⟩
-    rw [hv.1, hv.2.1, hv.2.2, ← hsim.1]
-    cases hpw : peekWaitRun n (s.size + 1) s with
+    have hv := view_fields s
+    rw [hv.1, hv.2.1, hv.2.2.1, hv.2.2.2, ← hsim.1]
+    cases hpw : peekWaitRun false n (s.size + 1) s with
+    | tok t s' =>
+      have hinv : Inv s' := by simpa [hpw, PeekOut.inv] using hsim.2
+      simpa [PeekOut.toA] using ih t s' hinv
+    | stop st s' => simp [PeekOut.toA]
+  | signPeek k ih =>
+    have hsim := peekWait_sim true 0 (s.size + 1) s hi (Nat.lt_succ_self _)
+    simp only [run, runA]
+    have hv := view_fields s
+    rw [hv.1, hv.2.1, hv.2.2.1, hv.2.2.2, ← hsim.1]
+    cases hpw : peekWaitRun true 0 (s.size + 1) s with
     | tok t s' =>
       have hinv : Inv s' := by simpa [hpw, PeekOut.inv] using hsim.2
       simpa [PeekOut.toA] using ih t s' hinv
@@ -390,8 +435,8 @@ theorem run_view {α : Type} (p : Prog α) (s : PState) (hi : Inv s) :
   | topGet k ih =>
     have hsim := topGet_sim (s.size + 1) s hi (Nat.lt_succ_self _)
     simp only [run, runA]
-    have hv : (view s).exprs = s.exprs ∧ (view s).runes = s.runes ∧ (view s).core = s.lex.toLexCore := ⟨rfl, rfl, rfl⟩
-    rw [hv.1, hv.2.1, hv.2.2, ← hsim.1]
+    have hv := view_fields s
+    rw [hv.1, hv.2.1, hv.2.2.1, hv.2.2.2, ← hsim.1]
     cases hpw : topGetRun (s.size + 1) s with
     | tok t s' =>
       have hinv : Inv s' := by simpa [hpw, TopOut.inv] using hsim.2
@@ -403,11 +448,11 @@ theorem run_view {α : Type} (p : Prog α) (s : PState) (hi : Inv s) :
       | more => simp [TopOut.toA]
       | err => simp [TopOut.toA]
   | peekAt n k ih =>
-    have hsim := peekWait_sim n (s.size + 1) s hi (Nat.lt_succ_self _)
+    have hsim := peekWait_sim false n (s.size + 1) s hi (Nat.lt_succ_self _)
     simp only [run, runA]
-    have hv : (view s).exprs = s.exprs ∧ (view s).runes = s.runes ∧ (view s).core = s.lex.toLexCore := ⟨rfl, rfl, rfl⟩
-    rw [hv.1, hv.2.1, hv.2.2, ← hsim.1]
-    cases hpw : peekWaitRun n (s.size + 1) s with
+    have hv := view_fields s
+    rw [hv.1, hv.2.1, hv.2.2.1, hv.2.2.2, ← hsim.1]
+    cases hpw : peekWaitRun false n (s.size + 1) s with
     | tok t s' =>
       have hinv : Inv s' := by simpa [hpw, PeekOut.inv] using hsim.2
       have ht : (view s').core.tokens = s'.lex.tokens := rfl
@@ -417,21 +462,21 @@ theorem run_view {α : Type} (p : Prog α) (s : PState) (hi : Inv s) :
       | none => simp
     | stop st s' => simp [PeekOut.toA]
   | getTok k ih =>
-    have hsim := peekWait_sim 0 (s.size + 1) s hi (Nat.lt_succ_self _)
+    have hsim := peekWait_sim false 0 (s.size + 1) s hi (Nat.lt_succ_self _)
     simp only [run, runA]
-    have hv : (view s).exprs = s.exprs ∧ (view s).runes = s.runes ∧ (view s).core = s.lex.toLexCore := ⟨rfl, rfl, rfl⟩
-    rw [hv.1, hv.2.1, hv.2.2, ← hsim.1]
-    cases hpw : peekWaitRun 0 (s.size + 1) s with
+    have hv := view_fields s
+    rw [hv.1, hv.2.1, hv.2.2.1, hv.2.2.2, ← hsim.1]
+    cases hpw : peekWaitRun false 0 (s.size + 1) s with
     | tok t s' =>
       have hinv : Inv s' := by simpa [hpw, PeekOut.inv] using hsim.2
       have := ih t { s' with lex := { s'.lex with tokens := s'.lex.tokens.tail } } (by simpa [Inv] using hinv)
-      simpa [PeekOut.toA, view, runes_of_pending, LexState.pending] using this
+      simpa [PeekOut.toA, view, runes_of_pending, LexState.pending, PState.willFinish] using this
     | stop st s' => simp [PeekOut.toA]
   | pushTok t k ih =>
     have := ih { s with lex := { s.lex with tokens := t :: s.lex.tokens } } (by simpa [Inv] using hi)
-    simpa [run, runA, view, runes_of_pending, LexState.pending] using this
+    simpa [run, runA, view, runes_of_pending, LexState.pending, PState.willFinish] using this
   | pushExpr e k ih =>
     have := ih { s with exprs := s.exprs ++ [e] } (by simpa [Inv] using hi)
-    simpa [run, runA, view, runes_of_pending] using this
+    simpa [run, runA, view, runes_of_pending, PState.willFinish] using this
 
 end ZygoVerif.Parser
